@@ -77,13 +77,13 @@ pub enum Op {
     Pointer { g: u8, id: u8 },
 }
 
-fn gid(g: u8) -> GroupId {
+pub(crate) fn gid(g: u8) -> GroupId {
     GroupId::from_slice(&[0xA0 + g, 1, 2, 3])
 }
 fn nid(n: u8) -> [u8; 32] {
     [0x10 + n; 32]
 }
-fn eid(prefix: u8, i: u8) -> EventId {
+pub(crate) fn eid(prefix: u8, i: u8) -> EventId {
     let mut b = [prefix; 32];
     b[31] = i;
     EventId::from_slice(&b).unwrap()
@@ -91,7 +91,7 @@ fn eid(prefix: u8, i: u8) -> EventId {
 fn pk() -> PublicKey {
     PublicKey::from_hex("8a9de562cbbed225b6ea0118dd3997a02df92c0bffd2224f71081a7450c3e549").unwrap()
 }
-fn relay_set(s: u8) -> BTreeSet<RelayUrl> {
+pub(crate) fn relay_set(s: u8) -> BTreeSet<RelayUrl> {
     let all = ["wss://r0.example", "wss://r1.example"];
     (0..2).filter(|i| s & (1 << i) != 0).map(|i| RelayUrl::parse(all[i]).unwrap()).collect()
 }
@@ -113,7 +113,7 @@ fn tags(t: u8) -> Tags {
     }
 }
 
-fn mk_group(g: u8, nostr: u8, name: u8, epoch: u8, active: bool) -> Group {
+pub(crate) fn mk_group(g: u8, nostr: u8, name: u8, epoch: u8, active: bool) -> Group {
     Group {
         mls_group_id: gid(g),
         nostr_group_id: nid(nostr),
@@ -132,7 +132,7 @@ fn mk_group(g: u8, nostr: u8, name: u8, epoch: u8, active: bool) -> Group {
     }
 }
 
-fn mk_msg(g: u8, id: u8, created: u8, processed: u8, epoch: Option<u8>, state: u8, tag: u8) -> Message {
+pub(crate) fn mk_msg(g: u8, id: u8, created: u8, processed: u8, epoch: Option<u8>, state: u8, tag: u8) -> Message {
     let ca = Timestamp::from_secs(T[created as usize % 2]);
     let tg = tags(tag);
     Message {
@@ -151,7 +151,7 @@ fn mk_msg(g: u8, id: u8, created: u8, processed: u8, epoch: Option<u8>, state: u
     }
 }
 
-fn mk_proc(w: u8, g: Option<u8>, epoch: Option<u8>, state: u8) -> ProcessedMessage {
+pub(crate) fn mk_proc(w: u8, g: Option<u8>, epoch: Option<u8>, state: u8) -> ProcessedMessage {
     ProcessedMessage {
         wrapper_event_id: eid(0x40, w),
         message_event_id: Some(eid(0x30, w)),
@@ -183,7 +183,7 @@ fn mk_welcome(id: u8, state: u8) -> Welcome {
     }
 }
 
-fn omls_gid(g: u8) -> openmls::group::GroupId {
+pub(crate) fn omls_gid(g: u8) -> openmls::group::GroupId {
     openmls::group::GroupId::from_slice(gid(g).as_slice())
 }
 
@@ -191,33 +191,33 @@ fn omls_gid(g: u8) -> openmls::group::GroupId {
 // canonical rendering
 // ---------------------------------------------------------------------------------------
 
-fn group_s(g: &Group) -> String {
+pub(crate) fn group_s(g: &Group) -> String {
     json!({"g": hx(g.mls_group_id.as_slice()), "n": hx(&g.nostr_group_id), "name": g.name, "epoch": g.epoch, "state": g.state.as_str(),
         "lm": g.last_message_id.map(|i| i.to_hex()), "lma": g.last_message_at.map(|t| t.as_secs()), "lmp": g.last_message_processed_at.map(|t| t.as_secs())})
     .to_string()
 }
-fn msg_s(m: &Message) -> String {
+pub(crate) fn msg_s(m: &Message) -> String {
     json!({"id": m.id.to_hex(), "g": hx(m.mls_group_id.as_slice()), "ca": m.created_at.as_secs(), "pa": m.processed_at.as_secs(), "e": m.epoch, "s": m.state.as_str(),
         "c": m.content, "t": serde_json::to_value(&m.tags).unwrap_or(Value::Null), "w": m.wrapper_event_id.to_hex()})
     .to_string()
 }
-fn proc_s(p: &ProcessedMessage) -> String {
+pub(crate) fn proc_s(p: &ProcessedMessage) -> String {
     json!({"w": p.wrapper_event_id.to_hex(), "m": p.message_event_id.map(|i| i.to_hex()), "e": p.epoch, "g": p.mls_group_id.as_ref().map(|g| hx(g.as_slice())), "s": p.state.as_str(), "r": p.failure_reason}).to_string()
 }
 fn welcome_s(w: &Welcome) -> String {
     json!({"id": w.id.to_hex(), "s": w.state.as_str(), "wr": w.wrapper_event_id.to_hex()}).to_string()
 }
-fn r<T, E>(x: Result<T, E>, f: impl FnOnce(T) -> String) -> String {
+pub(crate) fn r<T, E>(x: Result<T, E>, f: impl FnOnce(T) -> String) -> String {
     match x {
         Ok(v) => f(v),
         Err(_) => "ERR".into(),
     }
 }
-fn set_s(mut v: Vec<String>) -> String {
+pub(crate) fn set_s(mut v: Vec<String>) -> String {
     v.sort();
     format!("{{{}}}", v.join(","))
 }
-fn list_s(v: Vec<String>) -> String {
+pub(crate) fn list_s(v: Vec<String>) -> String {
     format!("[{}]", v.join(","))
 }
 
@@ -863,7 +863,7 @@ pub struct Divergence {
 /// Which findings of a divergence belong to which property
 pub type Classify<'a> = dyn Fn(&Divergence, &mut Report) + Sync + 'a;
 
-fn fresh_sqlite() -> MdkSqliteStorage {
+pub(crate) fn fresh_sqlite() -> MdkSqliteStorage {
     MdkSqliteStorage::verif_new_in_memory().expect("sqlite in-memory")
 }
 
@@ -873,7 +873,7 @@ thread_local! {
     static SQL: MdkSqliteStorage = fresh_sqlite();
 }
 
-fn reset_sqlite(s: &MdkSqliteStorage) {
+pub(crate) fn reset_sqlite(s: &MdkSqliteStorage) {
     s.verif_with_connection(|conn| {
         conn.execute_batch(
             "DELETE FROM group_state_snapshots; DELETE FROM messages; DELETE FROM group_relays; DELETE FROM group_exporter_secrets; DELETE FROM groups;
